@@ -413,6 +413,11 @@ func (e *Env) decodeSkeleton(l *facts.Level, v3 bool) {
 		wantCall := ir.Call(d.one, obj, d.Elem)
 		if call.Val.Key() != wantCall.Key() {
 			c.Fail("token-loop", who, e.P.Pos(call.Pos), "decodeOne is not applied to (the object decoded into, the element of this iteration) but as "+clip(call.Val.Pretty()))
+			if len(call.Val.Args) >= 1 && call.Val.Args[0].Key() != obj.Key() {
+				// the receiver of decodeOne is not the object that is returned: through a nil receiver that is a
+				// dereference of nil (a method value bound before the nil guard), otherwise a result nothing was decoded into
+				c.Fail("nil-receiver-decode", who, e.P.Pos(call.Pos), "decodeOne is called on "+clip(call.Val.Args[0].Pretty())+", not on the object decoded into ("+clip(obj.Pretty())+"): with a nil receiver that is the nil pointer itself")
+			}
 			okLoop = false
 			continue
 		}
